@@ -1035,7 +1035,12 @@ struct BumpSim {
         if (new_fee_model < need_incremental) {
             // a replacement smaller than the original built from a feerate alone: see Engine::assumptions
             const bool by_rate_only = !requested && !outputs.empty() && shrunk;
-            viol(by_rate_only ? "smaller-replacement-at-estimated-feerate-pays-less-than-original-plus-incremental" : "replacement-fee-below-original-plus-incremental", by_rate_only,
+            // explicit feerate, and one of the supplied outputs pays to a change script of the wallet: CheckFeeRate judges the total fee
+            // on a transaction with all supplied outputs, CreateTransaction then turns that output into the change destination and may
+            // drop it, so the transaction that is built is smaller than the one that was checked
+            const bool fewer_than_supplied = requested && outputs.size() > N->vout.size();
+            viol(by_rate_only ? "smaller-replacement-at-estimated-feerate-pays-less-than-original-plus-incremental" :
+                 fewer_than_supplied ? "fewer-outputs-than-supplied-at-requested-feerate-pays-less-than-original-plus-incremental" : "replacement-fee-below-original-plus-incremental", by_rate_only || fewer_than_supplied,
                  "replacement %s of %s pays %ld for %ld vB; the original paid %ld for %ld vB, so at least %ld + %ld = %ld is due (requested feerate: %ld sat/kvB, outputs supplied: %zu)", Hx(N->GetHash()).c_str(), Hx(id).c_str(),
                  (long)new_fee_model, (long)new_vsize, (long)old_fee_model, (long)old_vsize, (long)old_fee_model, (long)FeeAt(inc_rate, new_vsize), (long)need_incremental, (long)requested.value_or(-1), outputs.size());
         }
@@ -1060,6 +1065,7 @@ struct BumpSim {
                 const char* cls = "replacement-rejected-by-mempool";
                 bool low = false;
                 if (fee_short && !requested && !outputs.empty() && shrunk) { cls = "smaller-replacement-at-estimated-feerate-rejected-by-mempool"; low = true; }
+                else if (fee_short && requested && outputs.size() > N->vout.size()) { cls = "fewer-outputs-than-supplied-at-requested-feerate-rejected-by-mempool"; low = true; }
                 else if (!fee_short && requested && rate_not_above && new_weight > old_weight) { cls = "larger-replacement-at-requested-feerate-not-above-original-feerate-rejected-by-mempool"; low = true; }
                 else if (!fee_short && !requested && rate_not_above && new_weight > old_weight) { cls = "larger-replacement-at-estimated-feerate-not-above-original-feerate-per-weight-rejected-by-mempool"; low = true; }
                 viol(cls, low, "replacement %s (fee %ld, %ld vB) of %s (fee %ld, %ld vB, in the mempool) was committed by the wallet but the node's mempool does not hold it: %s (weights %ld -> %ld, requested %ld sat/kvB, outputs supplied: %zu)", Hx(N->GetHash()).c_str(),
